@@ -12,17 +12,25 @@ META = {
                  "translator that lists every read of the type-strictness setting in bytecode/*.go and an obligation that "
                  "each is classified + vm_compute correspondence of the boundaries with the real code + differential runs "
                  "of the real binary --types strict vs relaxed",
-    "text": "Theorems C04_binop_partial, C04_store_partial, C04_argument_partial, C04_return_partial, "
-            "C04_increment_partial, C04_statement_forms_partial and C04_boundaries_partial state, for all values "
-            "(integer kinds, float64 values that are integers, bool, string), constness and operators: strict ... = Ok v -> relaxed ... = Ok v; C04_float_literal_partial: a float literal with an integral value meeting an integer operand adapts in every mode (the result keeps the integer's kind). Every "
-            "function of internal/language/bytecode that reads the type-strictness setting is regenerated from the "
-            "source on each run and must be classified in coq/Arith/Sites.v (modelled boundary / same in strict and "
-            "relaxed / strict only adds a rejection / observed only). The boundaries are compared with the real code on "
-            "every (mode, declared kind, value kind, constness) cell, the implication itself is evaluated on the real "
-            "outputs, and generated strict-clean programs (random typed arithmetic; integer variables with integral float literals and float variables with integer literals; aliasing through return/argument/store for arrays, maps, structs) are run under both modes at several -o levels. "
-            "partial: the per-boundary theorems are not lifted to whole programs by a VM simulation; comparison "
-            "operators, array constants, struct members, aliasing and non-integral float/complex values are covered by the differential "
-            "runs only",
+    "text": "Per boundary (C04_binop_partial, C04_compare_partial, C04_store_partial, C04_argument_partial, C04_return_partial, "
+            "C04_increment_partial, C04_statement_forms_partial, C04_boundaries_partial), for all values (integer kinds, float64 "
+            "values that are integers, bool, string), constness and operators incl. the six comparison opcodes in stack and "
+            "operand-constant form: strict ... = Ok v -> relaxed ... = Ok v; C04_float_literal_partial: an integral float literal "
+            "meeting an integer adapts in every mode. Program level: C04_program_partial / C04_program_state_partial, by induction "
+            "over the instruction list from the boundary theorems: every forward-branching program over Push, Load, "
+            "Add/Sub/Mul/Div/Modulo, the comparisons, Negate, Store, Increment, argument and return coercion, print, "
+            "BranchFalse/BranchTrue/Jump that finishes under strict typing finishes under relaxed typing with the same output and "
+            "the same final state (the invariant 'integers stay wrapped to their kind' is proved along the run). Every function of "
+            "internal/language/bytecode that reads the type-strictness setting is regenerated from the source on each run and must "
+            "be classified in coq/Arith/Sites.v (19 modelled incl. comparisons and branch conditions / 8 same in strict and relaxed "
+            "/ 1 strict only adds a rejection / 5 observed only). Boundaries, comparisons and whole model programs (real ego stdout "
+            "vs run of the program model, both modes) are compared with the real code on every run; the implication is evaluated "
+            "on the real outputs; generated strict-clean programs (random typed arithmetic, int/float-literal mixes, aliasing "
+            "through return/argument/store) run under both modes at several -o levels. "
+            "partial: loops (backward branches), calls with their own frames, arrays/maps/structs/pointers, array constants, "
+            "struct members, non-integral float and complex values are outside the program model and covered by the "
+            "differential runs only; the compiler's emission for the modelled statements is tied by the program "
+            "correspondence at -o 0, not proved",
     "note": "Trusted: Coq kernel; coq/Arith/Model.v (tied by the correspondence), the classification in coq/Arith/Sites.v "
             "(argued in docs/C04.md), the regex translator lib/arith_util.strictness_sites, harness/C03/c03_test.go, the "
             "program generator in props/C04.py.",
